@@ -9,6 +9,7 @@
 //        (get I k) (get4 I xSTR) (mnew) (mput I k v) (mputall I J)            P ::= (k v)
 //   arr  <step>*     a pool of immutable types.Array values
 //        (lit v*) (add I v) (addAll I J) (delete I v) (deleteAll I J) (slice I i j) (unique I) (at I i)
+//        (sort I) (eachSlice I n) (flatten I) (find I v) (len I)
 //
 //   K ::= xHEX   V ::= INT      value k, v ::= INT | xHEX | (a value*)
 //
@@ -20,6 +21,7 @@ package c09
 import (
 	"fmt"
 	"math/rand"
+	"sort"
 	"strconv"
 	"strings"
 
@@ -1171,6 +1173,27 @@ func hashClass(exp, got *obs, opClass string) string {
 
 func arrStr(l px.List) string { return show(l.(px.Value)) }
 
+// flattenTexts: the reference of Flatten on canonical texts (an array text is `(a …)`)
+func flattenTexts(vs []string) []string {
+	out := []string{}
+	for _, v := range vs {
+		if strings.HasPrefix(v, "(") {
+			xs, err := sx.Parse(v)
+			if err != nil || len(xs) != 1 {
+				panic("flattenTexts: " + v)
+			}
+			kids := []string{}
+			for _, k := range xs[0].Args() {
+				kids = append(kids, k.String())
+			}
+			out = append(out, flattenTexts(kids)...)
+		} else {
+			out = append(out, v)
+		}
+	}
+	return out
+}
+
 func execArr(steps []sx.Sexp) core.Result {
 	type aslot struct {
 		a    px.List
@@ -1203,8 +1226,15 @@ func execArr(steps []sx.Sexp) core.Result {
 			ok = len(a) == 2 && isIntAtom(a[0]) && isIntAtom(a[1]) && a[0].MustInt() >= 0
 		case "slice":
 			ok = len(a) == 3 && isIntAtom(a[0]) && isIntAtom(a[1]) && isIntAtom(a[2]) && a[0].MustInt() >= 0 && a[1].MustInt() >= 0 && a[2].MustInt() >= 0
-		case "unique":
+		case "unique", "sort", "flatten", "len":
 			ok = len(a) == 1 && isIntAtom(a[0]) && a[0].MustInt() >= 0
+		case "eachSlice":
+			ok = len(a) == 2 && isIntAtom(a[0]) && isIntAtom(a[1]) && a[0].MustInt() >= 0
+		case "find":
+			ok = len(a) == 2 && isIntAtom(a[0]) && a[0].MustInt() >= 0
+			if ok {
+				_, ok = valStr(a[1])
+			}
 		default:
 			ok = false
 		}
@@ -1335,6 +1365,100 @@ func execArr(steps []sx.Sexp) core.Result {
 			fault = safely(func() { l = s.a.Slice(i, j) })
 			if fault == nil {
 				mk(l, append([]string{}, s.ref[i:j]...))
+			}
+		case "sort":
+			s := slot(0)
+			if s == nil {
+				res = "bad-ref"
+				break
+			}
+			var l px.List
+			fault = safely(func() { l = s.a.(px.SortableList).Sort(func(x, y px.Value) bool { return show(x) < show(y) }) })
+			if fault == nil {
+				r := append([]string{}, s.ref...)
+				sort.Strings(r)
+				changed = changed || !sameStrings(r, s.ref)
+				mk(l, r)
+			}
+		case "flatten":
+			s := slot(0)
+			if s == nil {
+				res = "bad-ref"
+				break
+			}
+			var l px.List
+			fault = safely(func() { l = s.a.Flatten() })
+			if fault == nil {
+				r := flattenTexts(s.ref)
+				changed = changed || !sameStrings(r, s.ref)
+				mk(l, r)
+			}
+		case "len":
+			s := slot(0)
+			if s == nil {
+				res = "bad-ref"
+				break
+			}
+			res = op + "=" + strconv.Itoa(s.a.Len())
+			if s.a.Len() != len(s.ref) {
+				fs.add("arr-len", "step %d %s: impl %s reference %d", si, st, res, len(s.ref))
+			}
+		case "find":
+			s := slot(0)
+			if s == nil {
+				res = "bad-ref"
+				break
+			}
+			want, _ := valStr(a[1])
+			wv := valOf(a[1])
+			fault = safely(func() {
+				if v, ok := s.a.Find(func(e px.Value) bool { return e.Equals(wv, nil) }); ok {
+					res = op + "=" + show(v)
+				} else {
+					res = op + "=_"
+				}
+			})
+			exp := op + "=_"
+			for _, v := range s.ref {
+				if v == want {
+					exp = op + "=" + v
+					break
+				}
+			}
+			if fault == nil && res != exp {
+				fs.add("arr-find", "step %d %s: impl %s reference %s", si, st, res, exp)
+			}
+		case "eachSlice":
+			s := slot(0)
+			if s == nil {
+				res = "bad-ref"
+				break
+			}
+			n := int(a[1].MustInt())
+			chunks := []string{}
+			e := safely(func() { s.a.EachSlice(n, func(c px.List) { chunks = append(chunks, show(c.(px.Value))) }) })
+			exp := []string{}
+			if n >= 1 {
+				for i := 0; i < len(s.ref); i += n {
+					j := i + n
+					if j > len(s.ref) {
+						j = len(s.ref)
+					}
+					exp = append(exp, refStr(s.ref[i:j]))
+				}
+			}
+			switch {
+			case e != nil && n < 1 && strings.Contains(fmt.Sprint(e), "EachSlice"):
+				res = op + "=illegal" // a slice size below one is a reported illegal argument
+			case e != nil:
+				fault = e
+			default:
+				res = op + "=[" + strings.Join(chunks, " ") + "]"
+				if n < 1 {
+					fs.add("arr-eachSlice", "step %d %s: a slice size below one was accepted", si, st)
+				} else if !sameStrings(chunks, exp) {
+					fs.add("arr-eachSlice", "step %d %s: impl %s reference %s", si, st, res, strings.Join(exp, " "))
+				}
 			}
 		case "at":
 			s := slot(0)
@@ -1628,11 +1752,23 @@ func randArr(r *rand.Rand, n int) string {
 			i := r.Intn(4)
 			ops = append(ops, "(slice "+ref()+" "+strconv.Itoa(i)+" "+strconv.Itoa(i+r.Intn(3))+")")
 			size++ // may be skipped; later refs beyond the pool answer bad-ref on both sides
-		case x < 88:
+		case x < 84:
 			ops = append(ops, "(unique "+ref()+")")
 			size++
+		case x < 88:
+			ops = append(ops, "(sort "+ref()+")")
+			size++
+		case x < 91:
+			ops = append(ops, "(flatten "+ref()+")")
+			size++
+		case x < 94:
+			ops = append(ops, "(eachSlice "+ref()+" "+strconv.Itoa(r.Intn(5)-1)+")")
+		case x < 96:
+			ops = append(ops, "(find "+ref()+" "+randHKey(r)+")")
+		case x < 97:
+			ops = append(ops, "(len "+ref()+")")
 		default:
-			ops = append(ops, "(at "+ref()+" "+strconv.Itoa(r.Intn(6))+")")
+			ops = append(ops, "(at "+ref()+" "+strconv.Itoa(r.Intn(7)-1)+")")
 		}
 	}
 	return "arr " + strings.Join(ops, " ")
